@@ -439,7 +439,8 @@ namespace Pistache::Http
             // This is the first time we are reading the payload
             else
             {
-                message->body_.reserve(contentLength);
+                // the announced length is not trustworthy: reserve what is there
+                message->body_.reserve(std::min<size_t>(contentLength, cursor.remaining()));
                 if (!readBody(contentLength))
                     return State::Again;
             }
@@ -462,7 +463,7 @@ namespace Pistache::Http
                 char* end;
                 const char* raw = chunkSize.rawText();
                 auto sz         = std::strtol(raw, &end, 16);
-                if (*end != '\r')
+                if (*end != '\r' || sz < 0)
                     throw std::runtime_error("Invalid chunk size");
 
                 // CRLF
@@ -484,12 +485,13 @@ namespace Pistache::Http
                 return Final;
             }
 
-            message->body_.reserve(size);
             StreamCursor::Token chunkData(cursor);
             const ssize_t available = cursor.remaining();
             const ssize_t missing   = size - alreadyAppendedChunkBytes;
+            // the announced size is not trustworthy: reserve for what is there
+            message->body_.reserve(message->body_.size() + std::min(available, missing));
 
-            if (available < missing + 2)
+            if (available - 2 < missing)
             {
                 // take the chunk data that is there, but leave a partial trailing EOL
                 const ssize_t data = std::min(available, missing);
